@@ -9,7 +9,7 @@ PATCHES=("$@")
 git -C /repo diff --quiet || { echo "/repo has uncommitted changes; refusing"; exit 2; }
 # evidence files are rewritten by every run: keep the ones of the unchanged tree
 EVBAK="$(mktemp -d /tmp/vp-evidence-XXXXXX)"; cp -a evidence/. "$EVBAK"/ 2>/dev/null
-trap 'git -C /repo checkout -- . >/dev/null 2>&1; rm -rf evidence; mkdir -p evidence; cp -a "$EVBAK"/. evidence/ 2>/dev/null; rm -rf "$EVBAK"' EXIT
+trap 'git -C /repo checkout -- . >/dev/null 2>&1; git -C /repo clean -fdq >/dev/null 2>&1; rm -rf evidence; mkdir -p evidence; cp -a "$EVBAK"/. evidence/ 2>/dev/null; rm -rf "$EVBAK"' EXIT
 for p in "${PATCHES[@]}"; do
   [ -f "$p" ] || continue
   name="$p"
@@ -46,6 +46,6 @@ for p in "${PATCHES[@]}"; do
     done
   fi
   echo "$name: $tests; flagged by: ${flagged[*]:-NONE}"
-  git -C /repo checkout -- .
+  git -C /repo checkout -- .; git -C /repo clean -fdq
 done
 rm -f /tmp/vp-mut-*.log /tmp/vp-mut-*.rc
